@@ -7,4 +7,3 @@ CONSTANTS
   Ts2Dense = 20
   DecCoMax = 12
 INVARIANT Law
-INVARIANT Emit
